@@ -29,36 +29,45 @@ import gc as _gc
 import importlib.util
 import json
 import os
-import subprocess
 import sys
 import threading
 
-from .. import build, cref, hist
-from ..build import InfraError
+# NOTE: the framework modules (build, cref, hist) are imported inside the functions of the driver only: the
+# interpreters of the `ending` family import this module too and should stay small (they are forked and
+# finalised many times).
+
+
+def InfraError(msg):
+    from ..build import InfraError as E
+    return E(msg)
 
 ID = "C36"
 LEVEL = "model_checking"
 META = dict(
     engine="E2-hist", level="model_checking",
     technique="explicit-state breadth-first search over spawn/call/exit/collect histories of up to 3 real non-Python "
-              "threads invoking a cffi callback, against a thread-state model (identity, thread-local data, number of "
-              "PyThreadStates), with crash containment",
-    text="All histories up to depth 5 (quick; thorough 7 with merging beyond the unmerged depth).  After every operation "
-         "the number of PyThreadStates of the interpreter (read through ctypes.pythonapi) must equal 1 + the foreign "
-         "threads that are alive and have made a call (+ at most the threads that exited since a thread last made its "
-         "first call, which is when exited threads are reclaimed), get_ident() and a threading.local value must persist between the "
-         "calls of one thread, and a freshly spawned thread must not see data of an exited one.  The same count is also "
-         "taken inside every callback.  Further exhaustive families on 2 threads (thorough: 3, plus the union alphabet): "
-         "`extern` -- the same thread alternates between an extern \"Python\" function (API mode, cffi_call_python) and an "
-         "ffi.callback closure and must find the same thread state in both; `gstate` -- the C caller brings its own "
+              "threads invoking a cffi callback (ffi.callback closure or extern \"Python\", bare or inside the caller's "
+              "PyGILState, run to completion or parked inside), against a thread-state model (identity, thread-local "
+              "data, number of PyThreadStates), with crash containment; plus interpreters ended (finalisation, fork) in each small model state",
+    text="Family base: all histories up to depth 6 (quick, unmerged to 5; thorough 8 / 6) of spawn / call / nested call / "
+         "exit / call from the Python thread / gc.collect() on 3 threads.  After every operation the number of "
+         "PyThreadStates of the interpreter (read through ctypes.pythonapi) must equal 1 + the foreign threads that are "
+         "alive and have made a call (+ at most the threads that exited since a thread last made its first call, which is "
+         "when exited threads are reclaimed), get_ident() and a threading.local value must persist between the calls of "
+         "one thread, and a freshly spawned thread must not see data of an exited one.  The same count is also taken "
+         "inside every callback.  Further exhaustive families under the same model (quick: 2 threads, unmerged, depth 5 / "
+         "5 / 6; thorough: 3 threads, depth 6 / 6 / 7, plus the union alphabet `all` to depth 5): `extern` -- the same "
+         "thread alternates between an extern \"Python\" function (API mode, cffi_call_python) and an ffi.callback "
+         "closure and must find the same thread state in both; `gstate` -- the C caller brings its own "
          "PyGILState_Ensure/Release around the callback (a caller-owned state must go away with the caller's release and "
-         "must not become a zombie, a cffi-made one must survive it); `park` -- a thread stays inside the callback (GIL "
-         "released) while the others make first calls (which reclaim exited threads), exit, or Python calls / collects, "
-         "and must find its thread-local data and identity unchanged when it continues; `ending` -- for one shortest "
-         "history per reachable model state (alive without / with state, parked inside, unreclaimed exits) a fresh "
-         "interpreter stops there: normal finalisation, or fork() whose child starts new foreign threads and then leaves "
-         "by os._exit / by finalisation while the parent finishes cleanly; exit status 0 and no fatal-error text "
-         "are required of every process.",
+         "must not become a zombie, a cffi-made one must survive it; thorough also through the extern stub); `park` -- a "
+         "thread stays inside the callback (GIL released in a C function) while the others make first calls (which "
+         "reclaim exited threads) or exit (thorough: and Python calls / collects), and must find its thread-local data "
+         "and identity unchanged when it continues; `ending` -- for one shortest history per model state reachable in 5 "
+         "(thorough 6) operations (threads alive without / with state / parked inside a callback, unreclaimed exits) an "
+         "interpreter stops there without cleaning up: normal finalisation, or fork() whose child (foreign threads gone) "
+         "starts new foreign threads under the same model and then leaves by finalisation (thorough: also by os._exit) "
+         "while the parent finishes cleanly; exit status 0, no fatal-error text and no model violation are required of every process.",
     note="each operation (or half of a split call) runs to completion before the next one starts: instruction-level "
          "races between a thread's shutdown hook and the zombie reclamation in another thread are NOT explored (OS "
          "threads are not under a controlled scheduler here)")
@@ -103,6 +112,7 @@ def build_paths():
     """Compile the thread harness and the API-mode module holding the extern "Python" function (once, in
     the driver; forked workers inherit the loaded objects, subprocesses get the paths)."""
     import cffi
+    from .. import build, cref
     so = cref.compile_so(open(os.path.join(build.HARNESS, "c36_fthreads.c")).read(),
                          flags=["-pthread", "-I" + build.INCLUDEPY], name="c36ft")
     name = "_c36x_%d" % os.getpid()
@@ -113,19 +123,38 @@ def build_paths():
         xpath = xf.compile(tmpdir=os.path.join(build.scratch(), "c36x"))
     except Exception as e:
         raise InfraError("cannot build the extern \"Python\" module: %r" % (e,))
-    return {"so": so, "xname": name, "xpath": xpath}
+    # the same declarations as an out-of-line ABI module: importing it needs no C parser (see setup(light=True))
+    aname = "_c36a_%d" % os.getpid()
+    af = cffi.FFI()
+    af.cdef(CDEF)
+    af.set_source(aname, None)
+    apath = os.path.join(build.scratch(), "c36x", aname + ".py")
+    with open(apath, "w") as f:
+        af.emit_python_code(f)           # (a file object: no "generating ..." chatter on stdout)
+    return {"so": so, "xname": name, "xpath": xpath, "aname": aname, "apath": apath}
 
 
-def setup(paths=None):
-    import cffi
+def _load(name, path):
+    spec = importlib.util.spec_from_file_location(name, path)
+    mod = importlib.util.module_from_spec(spec)
+    spec.loader.exec_module(mod)
+    return mod
+
+
+def setup(paths=None, light=False):
+    """light=False (driver, workers, replay): the closure comes from ffi.callback of an in-line cffi.FFI(), as in
+    the original check.  light=True (interpreters of the `ending` family): the FFI object of an out-of-line ABI
+    module with the same cdef, so that pycparser is not loaded; the callback machinery is the same."""
     if paths is None:
         paths = build_paths()
-    ffi = cffi.FFI()
-    ffi.cdef(CDEF)
+    if light:
+        ffi = _load(paths["aname"], paths["apath"]).ffi
+    else:
+        import cffi
+        ffi = cffi.FFI()
+        ffi.cdef(CDEF)
     lib = ffi.dlopen(paths["so"])
-    spec = importlib.util.spec_from_file_location(paths["xname"], paths["xpath"])
-    xmod = importlib.util.module_from_spec(spec)
-    spec.loader.exec_module(xmod)
+    xmod = _load(paths["xname"], paths["xpath"])
     tl = threading.local()
     seen = {}
     ctl = {}
@@ -432,12 +461,14 @@ class Sys(object):
 # ---- the `ending` family: processes that stop in the middle ---------------------------------------------------
 
 HOWS = ("finalize", "fork-exit", "fork-finalize")
+HOWS_QUICK = ("finalize", "fork-finalize")      # the child of "fork-exit" does strictly less than this one's
 CHILD_HISTORY = [("spawn",), ("call", 0), ("xcall", 0), ("exit", 0), ("spawn",), ("xcall", 0)]
 
 
 def ending_prefixes(nt, depth):
     """One shortest history (first in canonical order) for every model shape reachable within `depth`
     operations of the alphabet spawn / call / enter / exit (the model only; nothing is executed)."""
+    from .. import hist
     cfg = {"fam": "end", "nt": nt, "dry": True}
     reps = {}
     level = [()]
@@ -457,6 +488,7 @@ def ending_prefixes(nt, depth):
 def start_endings(specs):
     """Start `ending` cases: one helper interpreter (which never runs a callback itself) forks one case process
     per spec from its top level."""
+    import subprocess
     job = {"paths": _W["paths"], "specs": specs}
     return subprocess.Popen([sys.executable, "-m", "vlib.props._c36_end", json.dumps(job)],
                             stdout=subprocess.PIPE, stderr=subprocess.PIPE, text=True)
@@ -464,6 +496,7 @@ def start_endings(specs):
 
 def collect_endings(proc, specs):
     """-> [(verdict-dict-or-None, raw observation)] in the order of specs."""
+    import subprocess
     try:
         out, err = proc.communicate(timeout=3000)
     except subprocess.TimeoutExpired:
@@ -539,6 +572,7 @@ def _label_of(cfg, members):
 
 
 def run(ctx):
+    from .. import hist
     setup()
     base = tstate_count()
     # --opt only=extern,ending : run a subset of the families (for experiments; recorded in the evidence)
@@ -546,7 +580,8 @@ def run(ctx):
     # the `ending` family runs in interpreters of its own: start them now, collect them at the end
     nt_e, depth_e = (2, 5) if ctx.quick else (3, 6)
     prefixes = ending_prefixes(nt_e, depth_e)
-    specs = [{"cfg": {"fam": "end", "nt": nt_e}, "history": h, "how": how} for h in prefixes for how in HOWS]
+    hows = HOWS_QUICK if ctx.quick else HOWS
+    specs = [{"cfg": {"fam": "end", "nt": nt_e}, "history": h, "how": how} for h in prefixes for how in hows]
     if only and "ending" not in only:
         prefixes, specs = [], []
     nz = max(1, min(8, len(specs) // 4))              # helper interpreters; each forks its cases one by one
@@ -604,7 +639,7 @@ def run(ctx):
         for smp in st.samples[:2]:
             ctx.sample({"families": [l for l, _ in members], "history": smp})
         tot["states"] += st.states
-        tot["transitions"] += st.transitions
+        tot["transitions"] += st.transitions + len(crashes)      # a crashed item did execute the implementation
         tot["merged"] += st.merged
         tot["closed"] += st.histories_closed
         tot["max_depth"] = max(tot["max_depth"], st.max_depth)
@@ -625,7 +660,7 @@ def run(ctx):
                 ctx.sample({"family": "ending", "history": [repr(tuple(o)) for o in spec["history"]],
                             "how": spec["how"], "returncode": obs["returncode"]})
     ctx.count("ending_model_shapes", len(prefixes))
-    ctx.log("family ending: %d shapes x %d ways" % (len(prefixes), len(HOWS)))
+    ctx.log("family ending: %d shapes x %d ways" % (len(prefixes), len(hows)))
     if not ctx.samples:
         ctx.sample({"note": "see class_histogram"})
     d0_base = min(f["unmerged_depth_d0"] for f in fams.values()) if only and fams else (
@@ -637,7 +672,7 @@ def run(ctx):
         "histories_closed": tot["closed"], "evaluations": tot["transitions"] + n_end,
         "distinct_nontrivial": tot["states"] + n_end,
         "families": fams,
-        "ending": {"threads": nt_e, "prefix_depth": depth_e, "model_shapes": len(prefixes), "ways": list(HOWS),
+        "ending": {"threads": nt_e, "prefix_depth": depth_e, "model_shapes": len(prefixes), "ways": list(hows),
                    "processes_run": n_end},
         "rule": "a state is an operation history (merged by model key beyond the family's d0); every transition drives "
                 "real pthreads.  Families: base (spawn/call/ncall/exit/pycall/collect), extern (closure and extern "
@@ -657,7 +692,8 @@ def run(ctx):
 
 
 def replay(detail):
-    setup()
+    if not detail.get("_no_setup"):
+        setup()
     if detail.get("family") == "ending":
         bad, obs = run_endings([detail["spec"]])[0]
         print("spec:", detail["spec"])
@@ -665,6 +701,24 @@ def replay(detail):
         print("verdict:", bad)
         return 1 if bad else 0
     h = detail.get("history")
+    if h is None and detail.get("last_history"):
+        # a crash: the journalled history the worker was executing; if it crashes again, so does this process
+        import ast
+        h = list(ast.literal_eval(detail["last_history"]))
+        print("re-running the journalled history of the crashed worker in a child process:", h)
+        sys.stdout.flush()
+        pid = os.fork()
+        if pid == 0:
+            rc = 3
+            try:
+                rc = replay({"cfg": detail.get("cfg"), "history": h, "_no_setup": True})
+                sys.stdout.flush()
+            finally:
+                os._exit(rc)
+        _, status = os.waitpid(pid, 0)
+        code = os.waitstatus_to_exitcode(status)
+        print("child ended with", ("signal %d" % -code) if code < 0 else ("status %d" % code))
+        return 1 if code != 0 else 0
     if h is None:
         print(detail)
         return 1
